@@ -2,6 +2,9 @@ import ScVerif.Base.Line
 import ScVerif.C13.WF
 import ScVerif.C13.Async
 import ScVerif.C13.Ctx
+import ScVerif.C13.Errs
+import ScVerif.C13.Select
+import ScVerif.C13.Unwrap
 /-! Driver handler for C13: parses one request line, runs the model, prints the canonical answer.
 
 ```
@@ -63,14 +66,28 @@ def parseCOp? (t : String) : Option COp :=
   | ['d'] => some (.abort .deadline)
   | _ => none
 
-def parseFin? (t : String) : Option Fin :=
-  if t = "OK" then some .ok
+def parseCodeMsg? (r : List Char) : Option (Nat × String) :=
+  match (String.ofList r).splitOn ":" with
+  | [c, m] => (parseNat? c).map (fun n => (n, m))
+  | _ => none
+
+/-- What the handler returns, as an error VALUE (harness/cmd/c13/script.go `parseFin`): `OK`, `E<code>:<w>` a status
+error, `P<w>` a plain error, `V<code>:<w>` a status error wrapped with `fmt.Errorf("w: %w")`, `U<code>:<w>` an own
+error type with text `w` around a wrapped status error, `CX|CD` a context error, `KX|KD` a wrapped one, `Z` io.EOF,
+`Y` a wrapped io.EOF. -/
+def parseErr? (t : String) : Option (Option GoErr) :=
+  if t = "OK" then some none
+  else if t = "CX" then some (some (.ctx .cancel))
+  else if t = "CD" then some (some (.ctx .deadline))
+  else if t = "KX" then some (some (GoErr.errorf "w: " (.ctx .cancel)))
+  else if t = "KD" then some (some (GoErr.errorf "w: " (.ctx .deadline)))
+  else if t = "Z" then some (some .eof)
+  else if t = "Y" then some (some (GoErr.errorf "w: " .eof))
   else match t.toList with
-    | 'P' :: r => some (.plain (String.ofList r))
-    | 'E' :: r =>
-      match (String.ofList r).splitOn ":" with
-      | [c, m] => (parseNat? c).map (fun n => Fin.status n m)
-      | _ => none
+    | 'P' :: r => some (some (.plain (String.ofList r)))
+    | 'E' :: r => (parseCodeMsg? r).map fun p => some (.status p.1 p.2)
+    | 'V' :: r => (parseCodeMsg? r).map fun p => some (GoErr.errorf "w: " (.status p.1 p.2))
+    | 'U' :: r => (parseCodeMsg? r).map fun p => some (.wrap p.2 (GoErr.errorf "w: " (.status p.1 "inner")))
     | _ => none
 
 def parseShape? : String → Option Shape
@@ -139,23 +156,82 @@ def handleCall (op sh out srv fin cli reuse ctx : String) : Option String := do
   let shape ← parseShape? sh
   let out ← parseOut? out
   let hs ← parseList? parseHOp? srv
-  let fin ← parseFin? fin
+  let err ← parseErr? fin
   let cs ← parseList? parseCOp? cli
   let ctx0 ← parseCtx? ctx
   -- the caller's context: outgoing metadata, and a deadline if the client script waits for one
   let ctx : CallerCtx := { ctx0 with outgoing := out, deadline := ctx0.deadline || hasDeadlineOp cs }
-  let h := scripted hs fin
+  -- what each transport makes of the handler's error value (Errs.lean)
+  let finW := Wrap.handlerFin err
+  let finL := Wrap.handlerFinCfg false err
+  let finG := GrpcRef.handlerFin err
+  let hs' := fun (sc : SrvCtx) => hs.map (HOp.resolve sc)
   match op with
-  | "wrap" => pure (showTranscript (Wrap.runCtx shape ctx h cs reuse))
-  | "legacy" => pure (showTranscript (Wrap.runCtxCfg Cfg.legacy shape ctx h cs reuse))
-  | "grpc" => pure (showTranscript (GrpcRef.runCtx shape ctx h cs reuse))
-  | "wf" => pure (showBool (WFScripts shape (h (GrpcRef.serverCtx ctx)).1 fin cs))
-  | "async" => pure (showRuns (Wrap.asyncRuns Cfg.current shape (h (Wrap.startStream Cfg.current ctx)).1 fin cs reuse))
-  | "asynclegacy" => pure (showRuns (Wrap.asyncRuns Cfg.legacy shape (h (Wrap.startStream Cfg.legacy ctx)).1 fin cs reuse))
+  | "wrap" => pure (showTranscript (Wrap.runCtx shape ctx (scripted hs finW) cs reuse))
+  | "legacy" => pure (showTranscript (Wrap.runCtxCfg Cfg.legacy shape ctx (scripted hs finL) cs reuse))
+  | "grpc" => pure (showTranscript (GrpcRef.runCtx shape ctx (scripted hs finG) cs reuse))
+  | "wf" => pure (showBool (WFScripts shape (hs' (GrpcRef.serverCtx ctx)) finG cs))
+  | "async" => pure (showRuns (Wrap.asyncRuns Cfg.current shape (hs' (Wrap.startStream Cfg.current ctx)) finW cs reuse))
+  | "asynclegacy" => pure (showRuns (Wrap.asyncRuns Cfg.legacy shape (hs' (Wrap.startStream Cfg.legacy ctx)) finL cs reuse))
+  | _ => none
+
+/-- One set-up step on a fresh `ClientServerStream` (harness/cmd/c13/selecttie.go): `H<md>` SetHeader, `S<md>`
+SendHeader, `T<md>` SetTrailer, `x` / `d` the caller's context ends, `C<fin>` Close(what the handler returned). -/
+def applySetup (w : Wrap.State) (t : String) : Option Wrap.State :=
+  match t.toList with
+  | ['x'] => some (Wrap.abort w .cancel)
+  | ['d'] => some (Wrap.abort w .deadline)
+  | 'H' :: r => (parseMD? (String.ofList r)).map fun md => (Wrap.setHeader Cfg.current w md).1
+  | 'S' :: r => (parseMD? (String.ofList r)).map fun md => (Wrap.sendHeader w md).1
+  | 'T' :: r => (parseMD? (String.ofList r)).map fun md => Wrap.setTrailer w md
+  | 'C' :: r => (parseErr? (String.ofList r)).map fun e => Wrap.close Cfg.current w (Wrap.handlerFin e)
+  | _ => none
+
+def showRes : Wrap.Res → String
+  | .msg m => "m" ++ toString m
+  | .ev e => showEv e
+  | .deliver => "deliver"
+
+def showSRes : Wrap.SRes → String
+  | .sent => "ok"
+  | .msg m => "m" ++ toString m
+  | .eof => "eof"
+  | .ctxErr a => showAbort a
+
+def showResults (rs : List String) : String :=
+  if rs.isEmpty then "blocks" else ";".intercalate rs.eraseDups
+
+/-- `select <recv|await|send|header|trailer> <setup ops|-> <offer n|-> <taker 0|1>`: what the client half's call can
+return on a stream brought into a state by the set-up ops (every ready select case; `blocks` if none). -/
+def handleSelect (call setup offer taker : String) : Option String := do
+  let ops := if setup = "-" || setup = "" then [] else setup.splitOn ","
+  -- `c` = the client has called CloseSend (no state of the shared record: clientSend is closed)
+  let half := ops.contains "c"
+  let w ← (ops.filter (· != "c")).foldlM applySetup ({} : Wrap.State)
+  let offer ← (if offer = "-" then some none else (parseNat? offer).map some)
+  let taker ← parseBool? taker
+  -- a handler inside SendMsg has run `sendHeaderIfNeeded` before it offers the message
+  let w := if offer.isSome then Wrap.sendHeaderIfNeeded w else w
+  let c : Wrap.Chans := ⟨w, offer, taker⟩
+  match call with
+  -- the handler's half: `offer` = the client is inside SendMsg, `taker` = the client is inside RecvMsg
+  | "ssend" => pure (showResults ((Wrap.ssendResults ⟨Wrap.sendHeaderIfNeeded w, none, taker, half⟩).map showSRes))
+  | "srecv" => pure (showResults ((Wrap.srecvResults ⟨w, offer, taker, half⟩).map showSRes))
+  | "recv" => pure (showResults ((Wrap.recvResults c).map showRes))
+  | "await" => pure (showResults ((Wrap.awaitResults c).map showRes))
+  | "send" => pure (showResults ((Wrap.sendResults c).map showEv))
+  | "header" => pure (showResults ((Wrap.headerResults w).map fun md => "h" ++ showMD md))
+  | "trailer" => pure ("t" ++ showMD (Wrap.trailer w))
   | _ => none
 
 def handleOpt (toks : List String) : Option String :=
   match toks with
+  | ["select", call, setup, offer, taker] => handleSelect call setup offer taker
+  | ["unwrap", k] => do
+    let k ← parseNat? k
+    match unwrapFully (stack k (.plain 0)) with
+    | .plain i => pure ("plain" ++ toString i)
+    | .unwrapper _ => pure "wrapper"
   | ["open", via, method, cs, ss, pre] => do
     let cs ← parseBool? cs
     let ss ← parseBool? ss
